@@ -9,6 +9,7 @@
   checked at every quiescent point of the explored histories by the independent decoder.
 -/
 import AdfProofs.BitmapLemmas
+import AdfProofs.UndelMarks
 namespace Adf.C04
 open Adf
 
@@ -100,5 +101,73 @@ example : scanFree smallTbl 20 39 41 20 3 = [22, 23, 24] ∧ (scanFree smallTbl 
           bmIsFree smallTbl 20 = false ∧ bmIsFree smallTbl 39 = true ∧
           bmIsFree (markUsed smallTbl [22, 23, 24]) 23 = false ∧ bmIsFree (markUsed smallTbl [22, 23, 24]) 25 = true := by
   decide
+
+/-! ## Undelete (src/adf_salv.c, model AdfModel/Salv.lean) -/
+
+/-- **writing the bitmap out never changes the free map**: `adfUpdateBitmap`, on any disk content and under any fault
+    schedule, leaves the in-memory table the allocator works from exactly as it was -/
+theorem C04_update_bitmap_keeps_free_map (c : Cfg) (v : Nat) (s : St) :
+    Post AnyFault c (updateBitmap v) s (fun _ s' => (s'.mem.vol v).bitmapTable = (s.mem.vol v).bitmapTable) :=
+  updateBitmap_table c v s
+
+/-- **an undeleted file has all its blocks allocated**: for every disk content, entry block, block lists, volume type
+    (with or without directory cache) and fault schedule, when `adfUndelFile` — from the point where it has the file's
+    block lists — reports success, the header block and every data and extension block are inside the volume (≥ 2) and
+    marked used in the free map, so no later allocation can hand one of them out. -/
+theorem C04_undeleted_file_is_allocated (c : Cfg) (v pSect : Nat) (entry : Blk) (data exts : List Nat) (s : St)
+    (hwf : TableWF (s.mem.vol v).bitmapTable) :
+    Post AnyFault c (undelFileRest v pSect entry data exts) s
+      (fun rc s' => rc = rcOK → ∀ k, (k = entry.w F_headerKey ∨ k ∈ data ∨ k ∈ exts) →
+        2 ≤ k ∧ bmIsFree (s'.mem.vol v).bitmapTable k = false) := by
+  refine Post.mono _ _ _ _ _ (undelFileRest_marks c v pSect entry data exts s hwf) ?_
+  intro rc s' h hrc k hk
+  apply (h hrc).2 k
+  simp only [List.mem_append, List.mem_singleton]
+  rcases hk with h | h | h
+  · exact Or.inr (Or.inr h)
+  · exact Or.inr (Or.inl h)
+  · exact Or.inl h
+
+/-- **an undeleted directory has its block allocated, and on a DIRCACHE volume its cache block too** -/
+theorem C04_undeleted_dir_is_allocated (c : Cfg) (v pSect : Nat) (entry : Blk) (s : St)
+    (hwf : TableWF (s.mem.vol v).bitmapTable) :
+    Post AnyFault c (undelDir v pSect entry) s
+      (fun rc s' => rc = rcOK →
+        (2 ≤ entry.w F_headerKey ∧ bmIsFree (s'.mem.vol v).bitmapTable (entry.w F_headerKey) = false) ∧
+        (isDIRCACHE (c.vol v).dosType = true →
+          2 ≤ entry.w F_extension ∧ bmIsFree (s'.mem.vol v).bitmapTable (entry.w F_extension) = false)) := by
+  refine Post.mono _ _ _ _ _ (undelDir_marks c v pSect entry s hwf) ?_
+  intro rc s' h hrc
+  exact ⟨(h hrc).1.2 _ (by simp), fun hd => ((h hrc).2 hd).2 _ (by simp)⟩
+
+/-- **`adfUndelEntry`: what it restores is allocated afterwards** — for every volume state, disk content, parent and sector
+    number and fault schedule: when the call reports success and the block at `nSect` is a file header or a directory,
+    the block that block names as its own (`headerKey`, the one that gets linked into the parent) is ≥ 2 and marked used. -/
+theorem C04_undelete_entry_is_allocated (c : Cfg) (v pSect nSect : Nat) (s : St) (hwf : TableWF (s.mem.vol v).bitmapTable) :
+    Post AnyFault c (undelEntry v pSect nSect) s (fun rc s' => rc = rcOK →
+      let e := blkOfBytes ((s.sector (vsect c v nSect)).take 512)
+      (e.secType = ST_FILE ∨ e.secType = ST_DIR) →
+        2 ≤ e.w F_headerKey ∧ bmIsFree (s'.mem.vol v).bitmapTable (e.w F_headerKey) = false) := by
+  refine Post.mono _ _ _ _ _ (undelEntry_marks c v pSect nSect s hwf) ?_
+  intro rc s' h hok e he
+  exact (h hok he).2 _ List.mem_cons_self
+
+/-- **adding a record to a directory cache never releases a block** (`adfAddInCache` may allocate one) -/
+theorem C04_add_in_cache_releases_nothing (c : Cfg) (v : Nat) (parent entry : Blk) (k : Nat) (s : St)
+    (hwf : TableWF (s.mem.vol v).bitmapTable) (hk : 2 ≤ k) (hused : bmIsFree (s.mem.vol v).bitmapTable k = false) :
+    Post AnyFault c (addInCache v parent entry) s (fun _ s' => bmIsFree (s'.mem.vol v).bitmapTable k = false) := by
+  refine Post.mono _ _ _ _ _ (addInCache_usedAll c v parent entry [k] s ⟨hwf, fun j hj => by
+    rw [List.mem_singleton.mp hj]; exact ⟨hk, hused⟩⟩) ?_
+  intro _ s' h
+  exact (h.2 k (by simp)).2
+
+/-- the marking loop of `adfUndelFile` stops at the first block that is not free, having marked none after it (the count it
+    reports is short, the call then gives everything back and fails): a block that two deleted files claim is never given
+    to both -/
+theorem C04_mark_refuses_used_block (c : Cfg) (v b : Nat) (bs : List Nat) (s : St)
+    (hin : bmInTable (s.mem.vol v) b = true) (hused : bmIsFree (s.mem.vol v).bitmapTable b = false) :
+    run c (markWhileFree v (b :: bs)) s = (.ok 0, s) := by
+  unfold markWhileFree isBlockFree
+  simp [run_bind', hin, hused]
 
 end Adf.C04
